@@ -527,7 +527,25 @@ func (C04) Execute(t *testing.T, sc *core.Scenario) *core.Result {
 				if got.openErr != "" {
 					class = "index-breaks-open"
 				}
-				pin(res.Violate(class, fmt.Sprintf("variant=%s;field=%s;open=%s", v.Kind, field, mode), vi,
+				key := fmt.Sprintf("variant=%s;field=%s;open=%s", v.Kind, field, mode)
+				if v.Kind == "end-repoint" && v.A < len(recs) {
+					// does the journal hold, at the new offset, a root record for the very hash the batch ends
+					// with (the same root committed twice)? Only then can the index pass dolt's validation.
+					offs, _, kinds, addrs := nbs.DsimParseJournal(jrn)
+					at := map[int64]hash.Hash{}
+					for i := range offs {
+						if kinds[i] == 1 {
+							at[offs[i]] = addrs[i]
+						}
+					}
+					cur := int64(binary.BigEndian.Uint64(idx[recs[v.A].off+9:]))
+					same := "no"
+					if h, ok := at[cur]; ok && h == at[int64(v.B)] {
+						same = "yes"
+					}
+					key += ";same-root-at-new-end=" + same
+				}
+				pin(res.Violate(class, key, vi,
 					"index variant %+v (field %s), %s open: %s", v, field, mode, d))
 			} else {
 				res.Probe("same_as_no_index:" + mode)
